@@ -12,6 +12,11 @@ pub fn enum_try_as_inner(ast: &DeriveInput) -> syn::Result<TokenStream> {
     let enum_name = &ast.ident;
     let (impl_generics, ty_generics, where_clause) = ast.generics.split_for_impl();
 
+    // Attribute errors must reach the user; the closure below can only skip a variant.
+    for variant in variants {
+        variant.get_variant_properties()?;
+    }
+
     let variants: Vec<_> = variants
         .iter()
         .filter_map(|variant| {
